@@ -43,6 +43,10 @@ func (p *ParkApp) CheckTx(tx types.Tx, basic bool) error {
 		s.setState(SubRunning)
 	}
 	err := p.inner.CheckTx(tx, basic)
+	if err == nil && s.OnBasicOK != nil {
+		// runs while the driver waits for quiescence: no concurrent access
+		s.OnBasicOK()
+	}
 	if s.ParkAfter {
 		s.setState(SubParkedAfter)
 		<-s.release
@@ -66,6 +70,9 @@ type Submission struct {
 	Tag        interface{}
 	ParkBefore bool
 	ParkAfter  bool
+	// OnBasicOK is called on the client goroutine right after the basic check
+	// of the submission has passed.
+	OnBasicOK func()
 
 	mu      sync.Mutex
 	state   int
@@ -110,7 +117,12 @@ func (w *World) installPark() {
 // Start launches a client goroutine that submits tx (a private copy of it) to
 // the node's mempool and lets it run to its first park or to completion.
 func (w *World) Start(id int, tx types.Tx, parkBefore, parkAfter bool) *Submission {
-	s := &Submission{ID: id, Tx: CopyTx(tx), ParkBefore: parkBefore, ParkAfter: parkAfter, release: make(chan struct{})}
+	return w.StartHook(id, tx, parkBefore, parkAfter, nil)
+}
+
+// StartHook is Start with a callback for the moment the basic check passes.
+func (w *World) StartHook(id int, tx types.Tx, parkBefore, parkAfter bool, onBasicOK func()) *Submission {
+	s := &Submission{ID: id, Tx: CopyTx(tx), ParkBefore: parkBefore, ParkAfter: parkAfter, OnBasicOK: onBasicOK, release: make(chan struct{})}
 	p := w.Park
 	mem := w.Chain.Mempool
 	p.mu.Lock()
